@@ -219,7 +219,7 @@ func (x *Exec) exitNormal(s *State, rs []Val) {
 	}
 	env.old.vars = env.vars
 	x.bindLets(env, c, true)
-	for _, e := range c.Ensures {
+	for ei, e := range c.Ensures {
 		if e.Kind == "onpanic" {
 			continue
 		}
@@ -229,7 +229,7 @@ func (x *Exec) exitNormal(s *State, rs []Val) {
 		}
 		name := e.Name()
 		if name == "" {
-			name = "ensures@" + e.Where
+			name = fmt.Sprintf("ensures%d", ei+1)
 		}
 		s.goal(x.entryKey+"#post:"+name, "post", e.Props(), t, e.Where, e.Src)
 	}
@@ -248,11 +248,18 @@ func (x *Exec) typeInvPreserved(s *State) {
 	sort.Strings(keys)
 	for _, k := range keys {
 		for _, ti := range w.typeInvs[k] {
+			if !pkgCanName(x.entry, ti.pkg) {
+				// a package that cannot name the type holds no reference into
+				// its objects' private slices (see DESIGN.md, trusted base)
+				x.note("type invariant %s of package %s not re-checked in %s: the function's package does not import it", ti.cl.Name(), ti.pkg.Name(), x.entryKey)
+				continue
+			}
 			x.counter++
 			pv := Term{fmt.Sprintf("p!ti%d", x.counter), "Int"}
 			s.noTypeInv = true
-			envN := &Env{s: s, vars: map[string]SVal{ti.v: {t: pv, gt: ti.gt}}, heap: s.heap, ghost: s.ghost, alloc: s.alloc, pkg: ti.pkg}
-			envO := &Env{s: s, vars: envN.vars, heap: s.oldHeap, ghost: s.oldGhost, alloc: s.oldAlloc, pkg: ti.pkg}
+			var closure []Term
+			envN := &Env{s: s, vars: map[string]SVal{ti.v: {t: pv, gt: ti.gt}}, heap: s.heap, ghost: s.ghost, alloc: s.alloc, pkg: ti.pkg, quantified: true, collect: &closure}
+			envO := &Env{s: s, vars: envN.vars, heap: s.oldHeap, ghost: s.oldGhost, alloc: s.oldAlloc, pkg: ti.pkg, quantified: true}
 			tn, err1 := envN.evalBool(ti.cl.Expr, ti.cl.Src)
 			to, err2 := envO.evalBool(ti.cl.Expr, ti.cl.Src)
 			s.noTypeInv = false
@@ -262,7 +269,17 @@ func (x *Exec) typeInvPreserved(s *State) {
 			if tn.S == to.S {
 				continue
 			}
-			t := Term{fmt.Sprintf("(forall ((%s Int)) (=> (and (< 0 %s) (<= %s %s) %s) %s))", pv.S, pv.S, pv.S, s.oldAlloc.S, to.S, tn.S), "Bool"}
+			// only the closure facts that speak about the quantified object itself
+			var cl []Term
+			seenCl := map[string]bool{}
+			for _, f := range closure {
+				if !seenCl[f.S] && len(cl) < 12 && !strings.Contains(f.S, "!b") {
+					seenCl[f.S] = true
+					cl = append(cl, f)
+				}
+			}
+			hyp := mkAnd(append([]Term{to}, cl...)...)
+			t := Term{fmt.Sprintf("(forall ((%s Int)) (=> (and (< 0 %s) (<= %s %s) %s) %s))", pv.S, pv.S, pv.S, s.oldAlloc.S, hyp.S, tn.S), "Bool"}
 			s.goal(x.entryKey+"#typeinv-preserved:"+ti.cl.Name(), "typeinv", ti.cl.Props(), t, ti.cl.Where, "objects that satisfied the type invariant still do: "+ti.cl.Src)
 		}
 	}
@@ -279,7 +296,7 @@ func (x *Exec) exitPanic(s *State) {
 	env := x.entryEnv(s)
 	env.vars["$panic"] = SVal{t: *s.panicVal}
 	env.old.vars = env.vars
-	for _, e := range c.Ensures {
+	for ei, e := range c.Ensures {
 		if e.Kind != "onpanic" {
 			continue
 		}
@@ -289,7 +306,7 @@ func (x *Exec) exitPanic(s *State) {
 		}
 		name := e.Name()
 		if name == "" {
-			name = "onpanic@" + e.Where
+			name = fmt.Sprintf("onpanic%d", ei+1)
 		}
 		s.goal(x.entryKey+"#onpanic:"+name, "post", e.Props(), t, e.Where, e.Src)
 	}
@@ -913,4 +930,30 @@ func (x *Exec) instrMods(fn *ssa.Function, in ssa.Instruction, mods map[string]b
 			}
 		}
 	}
+}
+
+// pkgCanName reports whether the package of fn is pkg or imports it
+// (transitively).
+func pkgCanName(fn *ssa.Function, pkg *types.Package) bool {
+	if fn.Pkg == nil || pkg == nil {
+		return true
+	}
+	seen := map[*types.Package]bool{}
+	var walk func(p *types.Package) bool
+	walk = func(p *types.Package) bool {
+		if p == pkg {
+			return true
+		}
+		if seen[p] {
+			return false
+		}
+		seen[p] = true
+		for _, i := range p.Imports() {
+			if walk(i) {
+				return true
+			}
+		}
+		return false
+	}
+	return walk(fn.Pkg.Pkg)
 }
